@@ -30,7 +30,7 @@ for cfg in ("std", "serde", "nostd"):
                         callees.add(k)
         e = sigs.setdefault(f["key"], {"kind": f.get("kind"), "inputs": [t["s"] for t in f.get("inputs", [])],
                                        "output": (f.get("output") or {}).get("s"), "exported": bool(f.get("exported")),
-                                       "name": f.get("name"), "callees": []})
+                                       "name": f.get("name"), "path": f.get("path"), "callees": []})
         e["callees"] = sorted(set(e["callees"]) | callees)
 old = set(json.load(open(os.path.join(HERE, "rules", "known_functions.json"))))
 print("inventory: %d keys (was %d); added %s; removed %s" % (len(keys), len(old), sorted(keys - old)[:10], sorted(old - keys)[:10]))
@@ -41,5 +41,13 @@ for cfg in ("std", "serde", "nostd"):
     for a in json.loads(text)["adts"]:
         adts.add(a["path"])
 json.dump(sorted(adts), open(os.path.join(HERE, "rules", "known_adts.json"), "w"), indent=0)
+closures = set()
+for cfg in ("std", "serde", "nostd"):
+    text = open(facts_for("/repo", cfg)).read()
+    text = re.sub(r'(?<![A-Za-z0-9_])(?:core|alloc)::', 'std::', text)
+    for f in json.loads(text)["fns"]:
+        if f.get("kind") == "Closure":
+            closures.add(f["key"])
+json.dump(sorted(closures), open(os.path.join(HERE, "rules", "known_closures.json"), "w"), indent=0)
 json.dump(sorted(keys), open(os.path.join(HERE, "rules", "known_functions.json"), "w"), indent=0)
 json.dump(sigs, open(os.path.join(HERE, "rules", "known_signatures.json"), "w"), indent=0, sort_keys=True)
